@@ -713,6 +713,9 @@ class AECDHKeyExchange(KeyExchange):
         ext_c = self.clientHello.getExtension(ExtensionType.ec_point_formats)
         ext_s = self.serverHello.getExtension(ExtensionType.ec_point_formats)
         if ext_c and ext_s:
+            if not ext_c.formats or not ext_s.formats:
+                raise TLSIllegalParameterException(
+                    "Empty ec_point_formats extension")
             try:
                 ext_negotiated = next((i for i in ext_c.formats \
                                        if i in ext_s.formats))
